@@ -5,6 +5,7 @@ package resource_info
 
 import (
 	"fmt"
+	"github.com/NVIDIA/KAI-scheduler/pkg/scheduler/k8s_internal"
 	"strings"
 
 	"github.com/NVIDIA/KAI-scheduler/pkg/common/constants"
@@ -184,6 +185,15 @@ func BuildResourceVectorMap(nodeResources []v1.ResourceList) *ResourceVectorMap 
 
 func convertResourceToFloat64(rName v1.ResourceName, rQuant resource.Quantity) float64 {
 	if rName == v1.ResourceCPU {
+		return float64(rQuant.MilliValue())
+	}
+	// Keep the same units as the structured representation (ResourceFromResourceList / RequirementsFromResourceList):
+	// generic extended scalar resources are tracked in milli-units there.
+	switch rName {
+	case v1.ResourceMemory, GPUResourceName, amdGpuResourceName, v1.ResourcePods, v1.ResourceEphemeralStorage, v1.ResourceStorage:
+		return float64(rQuant.Value())
+	}
+	if !IsMigResource(rName) && k8s_internal.IsScalarResourceName(rName) {
 		return float64(rQuant.MilliValue())
 	}
 	return float64(rQuant.Value())
